@@ -52,7 +52,7 @@ HIST_RULES = {
 
 
 STORE_PROPS = ("C01", "C02", "C03", "C06")
-CONC_PROPS = ("C02", "C03", "C07", "C08", "C17")
+CONC_PROPS = ("C02", "C03", "C07", "C08", "C15", "C17")
 
 
 class HistSpec(Spec):
